@@ -406,6 +406,9 @@ func runChild(prop, tier, only, resultPath string, seed int) {
 	res.Nondets = e.nondetTy
 	if e.conc != nil {
 		e.conc.finish(e, res)
+		if os.Getenv("VERIF_PROGRESS") != "" {
+			fmt.Fprintf(os.Stderr, "  [%s] %d threads, %d events, %d schedule constraints, %d terms\n", only, len(e.conc.threads), len(e.conc.events), len(e.conc.phi), len(termList))
+		}
 	}
 	solveAll(e, res, prop, timeout, meta, seed)
 	res.Issues = e.issues
